@@ -391,7 +391,7 @@ def run(ctx: vlib.Ctx):
     ctx.leg("S-synthetic", oracle_failures=n_or, histories=len(cases))
 
     # TR + S on real search runs
-    suts = sorted((vlib.VERIF / "corpus" / "C13_sut").glob("*.py"), key=lambda p: (p.stem not in ("floateq13", "bank13"), p.stem))
+    suts = sorted((p for p in (vlib.VERIF / "corpus" / "C13_sut").glob("*.py") if p.stem != "flags13"), key=lambda p: (p.stem not in ("floateq13", "bank13"), p.stem))
     jobs = []
     algos = ["DYNAMOSA", "MOSA", "MIO"]
     for k in range(6 if ctx.quick else 18):
@@ -408,6 +408,14 @@ def run(ctx: vlib.Ctx):
                                  "local_search.local_search_probability": ctx.rng.choice([0.5, 1.0]),
                                  "local_search.local_search_time": 3000,
                                  "search_algorithm.population": ctx.rng.choice([6, 10, 50])} if a == "DYNAMOSA" else None)))
+    # DynaMOSA local search on tests that execute one predicate twice (a rejected trial must leave the test with
+    # the execution result of its restored statement)
+    for _ in range(1 if ctx.quick else 4):
+        jobs.append(dict(sut=str(vlib.VERIF / "corpus" / "C13_sut" / "flags13.py"), algorithm="DYNAMOSA", metrics=["BRANCH"],
+                         iterations=ctx.rng.choice([3, 4, 6]), seed=ctx.rng.randrange(10**6), pre=I.install_observers,
+                         max_records=100 if ctx.quick else 400, twice_seed=6,
+                         extra={"local_search.local_search": True, "local_search.local_search_probability": 1.0,
+                                "local_search.local_search_time": 3000, "search_algorithm.population": 6}))
     runs = pipeline.run_many(jobs, I.extract, workers=6 if ctx.quick else 12, timeout=600)
     n_real = {"arch": 0, "gm": 0, "pop": 0, "reexec": 0}
     for job, r in zip(jobs, runs):
@@ -422,6 +430,8 @@ def run(ctx: vlib.Ctx):
                          {"job": jd, "traceback": r.get("traceback", "")[-1500:]})
             continue
         ctx.count(f"real-run:{job['algorithm']}")
+        if job.get("twice_seed"):
+            ctx.count("real-run:twice-call-tests-seeded", r.get("twice_seeded", 0))
         if job.get("near_miss"):
             ctx.count("real-run:near-miss-seeded" if r.get("near_miss_injected") else "real-run:near-miss-NOT-seeded")
             if r.get("near_miss_error"):
